@@ -10,6 +10,7 @@ import Woodpile.Driver.Iovec
 import Woodpile.Driver.CodecW
 import Woodpile.Driver.RoughTlv
 import Woodpile.Driver.Hcobs
+import Woodpile.Driver.Scale
 
 open Woodpile.Driver
 
@@ -29,6 +30,10 @@ def families : List (String × Family) :=
   ++ [("nfs", NfsFam.family)]
   ++ [("chunker", StreamFam.chunkerFamily)]
   ++ [("reader", StreamFam.readerFamily)]
+  ++ [("scale_iovec", ScaleFam.wrap IovecFam.family)]
+  ++ [("scale_codec", ScaleFam.wrap CodecWFam.family)]
+  ++ [("scale_chunker", ScaleFam.wrap StreamFam.chunkerFamily)]
+  ++ [("scale_reader", ScaleFam.wrap StreamFam.readerFamily)]
 
 def main (args : List String) : IO UInt32 := do
   match args with
